@@ -67,6 +67,7 @@ thanks to `Mark Williams`_ for all his help.
 
 """
 
+import copyreg
 from collections.abc import KeysView, ValuesView, ItemsView
 from itertools import zip_longest
 
@@ -179,6 +180,13 @@ class OrderedMultiDict(dict):
     def __setstate__(self, state):
         self.clear()
         self.update_extend(state)
+
+    def __reduce_ex__(self, protocol):
+        # the default reduction of a dict subclass also passes the
+        # (single-valued) items, which copy.copy()/copy.deepcopy()
+        # re-assign after __setstate__, dropping all but the last
+        # value of every key
+        return (copyreg.__newobj__, (self.__class__,), self.__getstate__())
 
     def _clear_ll(self):
         try:
